@@ -24,4 +24,5 @@ pub uninterp spec fn as_ref_view<S: core::marker::PointeeSized, T: core::marker:
     u.free_fn(c, "find_separator", "cln_plugin::codec")
     u.fn(c, c.find("utf8", "fn"), "cln_plugin::codec::utf8", stub=True)
     u.impl(c, "MultiLineCodec", ["decode"], "cln_plugin::codec", trait="Decoder")
+    u.auto_here(c, "cln_plugin::codec")
     u.raw("} }\n} // verus!\nfn main() {}\n")
